@@ -346,7 +346,7 @@ impl VM {
                     let left = self.pop();
                     let result = match left.tag() {
                         Type::Float => unsafe { Object::float(-left.as_f64_unchecked(), gc) },
-                        Type::Int => Object::int(-left.as_int()),
+                        Type::Int => Object::int(0).sub(left, gc)?,
                         _ => {
                             return Err(Error::TypeError(format!(
                                 "kan objecten met type {} niet omdraaien",
